@@ -22,6 +22,9 @@ def classify(w):
             return "theta_million_bounds_dropped_when_record_is_rewritten"
     if kind in ("join", "remove_iiv", "split") and what.startswith("VALUE") and any(re.search(r"\)\s*X\s*\d", r.upper()) and "BLOCK" not in r.upper() for r in om):
         return "omega_repeat_xn_in_diagonal_record_structure_edit_loses_values"
+    if kind in ("join", "remove_iiv", "split") and "fails with an internal error: IndexError" in what and \
+            any(re.search(r"\)\s*X\s*\d", r.upper()) for r in om):
+        return "omega_repeat_xn_record_structure_edit_internal_error"
     if structure_edit and ("parameter names differ" in what or what.startswith("eta names")):
         return "default_omega_names_change_after_structure_edit"
     if kind == "join" and "fix True in the model, False after re-reading" in what:
